@@ -134,6 +134,11 @@ Theorem c17_ladder_matches_grammar : LegacyGrammarLink.ladder_agrees = true /\ L
 Proof. exact (conj LegacyGrammarLink.ladder_agrees_ok LegacyGrammarLink.spelling_agrees_ok). Qed.
 Print Assumptions c17_ladder_matches_grammar.
 
+Example c17_growth_cap_example :
+  exists e, parse1 ex_legacy = Some e /\ too_long ex_ctx false (max_migrated_length ex_legacy) e = false.
+Proof. exact cap_example. Qed.
+Print Assumptions c17_growth_cap_example.
+
 (* Literals: a legacy literal without backslash and without raw newline (any other characters, doubled quotes
    included) denotes the same characters after migration, read the way the Excellent3 visitor reads a TEXT
    token (strconv.Unquote, lib/Quote.v), and its migrated spelling is one TEXT token. *)
